@@ -89,6 +89,10 @@ func packetOf(pv Val) *rtp.Packet {
 type rec struct {
 	mu      sync.Mutex
 	panicAt int
+	// what Close does: 0 returns, 1 panics, 2 never returns (parks on gate; released when the case is over)
+	closeMode int
+	parked    bool
+	gate      chan struct{}
 	out    []int64
 	hashes []uint32
 	closes int
@@ -126,7 +130,22 @@ func (r *rec) Consume(p media.Pack) {
 		panic("lts: consumer panics as scripted")
 	}
 }
-func (r *rec) Close() error { r.mu.Lock(); r.closes++; r.mu.Unlock(); return nil }
+func (r *rec) Close() error {
+	r.mu.Lock()
+	r.closes++
+	mode := r.closeMode
+	if mode == 2 {
+		r.parked = true
+	}
+	r.mu.Unlock()
+	switch mode {
+	case 1:
+		panic("lts: Close panics as scripted")
+	case 2:
+		<-r.gate
+	}
+	return nil
+}
 
 // MakePacket builds an RTP packet whose payload classifies as the given kind and carries id.
 // kind: 0 audio channel, 1 video non-key, 2 IDR, 3 SPS, 4 PPS.
@@ -301,7 +320,7 @@ func Run(c Val) Val {
 	var cmu sync.Mutex
 	byCid := map[uint32]int{}
 	for i := range recs {
-		recs[i] = &rec{panicAt: int(c.At(7).At(i).Int())}
+		recs[i] = &rec{panicAt: int(c.At(7).At(i).Int()), closeMode: int(c.At(14).At(i).Int()), gate: make(chan struct{})}
 	}
 	ctl.Role = func(point string, id uint32) string {
 		if point == "consume.pop" || point == "consume.got" || point == "remove.loaded" {
@@ -460,8 +479,12 @@ func Run(c Val) Val {
 			}
 		}
 		closes := r.closes
+		parked := r.parked
 		r.mu.Unlock()
 		cst := ctl.Status("cons:" + strconv.Itoa(i))
+		if parked && cst == "blocked" {
+			cst = "done" // parked for ever inside Consumer.Close: no further step; reported in a field of its own
+		}
 		if cst == "" && ctl.Status("att:"+strconv.Itoa(i)) == "done" {
 			cst = "done" // spawned and ran to completion without reaching a point
 		}
@@ -481,6 +504,9 @@ func Run(c Val) Val {
 			stp = code(ctl.Status("stop:"+strconv.Itoa(i)), map[string]int64{"h.start": 0, "remove.loaded": 1, "done": 5})
 		}
 		consV[i] = L(L(outs...), I(int64(closes)), I(pc), Bo(reg), I(ql), Bo(disc), I(att), I(stp), Bo(intact))
+		if len(c.At(14).List()) > 0 { // fault cases: tenth field "parked inside Consumer.Close"
+			consV[i] = L(append(consV[i].List(), Bo(parked))...)
+		}
 	}
 	rc, fc := media.VerifCounts(s)
 	if flvMode {
@@ -510,6 +536,9 @@ func Run(c Val) Val {
 	}
 	ctl.Finish()
 	s.Close()
+	for _, r := range recs { // the case is over: let the goroutines parked inside Close go
+		close(r.gate)
+	}
 	// let the goroutines of this stream run to their end before the next case installs its controller:
 	// they carry the same consumer ids and would be taken for the next case's threads
 	ctl.Settle()
